@@ -108,6 +108,12 @@ structure VF (N : Net) (f k R s : Nat) (vote : VoteValue) : Prop where
   cand : vote.yes = true → Cand N f s vote.observedRoot
   decYes : vote.decided = true → vote.yes = true → N.DecidesYes f k R s
   decNo : vote.decided = true → vote.yes = false → N.DecidesNo f k R s
+  decIff : vote.decided = true ↔ (N.DecidesYes f k R s ∨ N.DecidesNo f k R s)
+
+theorem not_decides_one (N : Net) (f R s : Nat) : ¬ (N.DecidesYes f 1 R s ∨ N.DecidesNo f 1 R s) := by
+  rintro (h | h)
+  · exact absurd h.1 (by decide)
+  · exact absurd h.1 (by decide)
 
 section Seen
 variable {N : Net} {vals : Vals} {f : Nat} {observe : Nat → Nat → Bool} {frameRoots : Nat → List Root}
@@ -171,13 +177,15 @@ theorem first_vote_facts (S : Setup N vals f observe frameRoots) (nr : Root) (hn
     exact { yes := ⟨fun _ => ⟨r.id, b, c, d⟩, fun _ => rfl⟩
             cand := fun _ => ⟨b, c, nr.id, hnr, d⟩
             decYes := by intro h; cases h
-            decNo := by intro h; cases h }
+            decNo := by intro h; cases h
+            decIff := ⟨(by intro h; cases h), fun h => absurd h (not_decides_one N f nr.id s)⟩ }
   | none =>
     have e : firstVote (seenMap (seenRoots observe frameRoots nr)) s = { decided := false, yes := false } := by
       unfold firstVote; rw [hl]
     rw [e]
     refine { yes := ⟨(by intro h; cases h), ?_⟩, cand := (by intro h; cases h),
-             decYes := (by intro h; cases h), decNo := (by intro h; cases h) }
+             decYes := (by intro h; cases h), decNo := (by intro h; cases h),
+             decIff := ⟨(by intro h; cases h), fun h => absurd h (not_decides_one N f nr.id s)⟩ }
     rintro ⟨b, hb, hc, hfc⟩
     exfalso
     have hm : (⟨b, f, s⟩ : Root) ∈ seenRoots observe frameRoots nr :=
@@ -247,7 +255,15 @@ theorem later_vote_facts (S : Setup N vals f observe frameRoots) {el : Election}
     tally_inv (fun _ s b => Cand N f s b) el s
       (fun k vote hm hy => (js.votes k.1 k.2 vote hm).2.2.2.2 hy) _ (tally0 el) t
       { some := (by intro x hx; cases hx), none := fun _ => ⟨rfl, rfl⟩ } ht
-  refine ⟨t, ht, by rw [hqa]; rfl, { yes := hvy, cand := ?_, decYes := ?_, decNo := ?_ }⟩
+  have hdi : (roundVote el t).decided = true ↔ (N.DecidesYes f (j + 1) nr.id s ∨ N.DecidesNo f (j + 1) nr.id s) := by
+    rw [N.decidesYes_succ f j nr.id s hj, N.decidesNo_succ f j nr.id s hj, ← hyes, ← hno,
+      ← hasQuorum_iff ok, ← hasQuorum_iff ok]
+    show Gen.Election.voteDecided (hasQuorum el.vals t.yes) (hasQuorum el.vals t.no) = true ↔ _
+    unfold Gen.Election.voteDecided
+    rw [Bool.or_eq_true]
+    exact ⟨fun h => h.elim (fun a => Or.inl ⟨hnr, a⟩) (fun a => Or.inr ⟨hnr, a⟩),
+      fun h => h.elim (fun a => Or.inl a.2) (fun a => Or.inr a.2)⟩
+  refine ⟨t, ht, by rw [hqa]; rfl, { yes := hvy, cand := ?_, decYes := ?_, decNo := ?_, decIff := hdi }⟩
   · intro hy
     have hy' : Gen.Election.voteYes t.yes.sum t.no.sum = true := hy
     show Cand N f s (if Gen.Election.voteYes t.yes.sum t.no.sum = true then
